@@ -124,6 +124,8 @@ theorem handle_hardstate_monotone (i : Fin N) (n : Node1 N) (inp : Input N) : Ha
     · exact (HardLe.of_same (a := n) (b := ackN n i n.log.length) rfl rfl rfl).trans (hardLe_maybeCommit _)
     · exact HardLe.refl n
   | beat => exact HardLe.refl n
+  | snapStatus src failed => exact HardLe.refl n
+  | unreachable src => exact HardLe.refl n
   | restart => exact HardLe.of_same rfl rfl rfl
   | recv m =>
     simp only [handle]
